@@ -23,7 +23,8 @@ PROP = dict(
           "client on one kept-alive connection. rapidcheck parts: general exchanges (methods GET/POST/PUT/PATCH/DELETE/custom tokens, paths with "
           "arbitrary non-NUL bytes percent-encoded, 0-6 query pairs, 0-12 request and response headers with token names and printable values up to "
           "6000 bytes, status 200-599, bodies of arbitrary bytes / CR-LF-NUL-dense / HTTP look-alike text), file parts (ranges near block edges "
-          "of files up to 300 KB), JSON parts, reference-server parts, and 2..64 clients in flight at once (one lane = one thread, released "
+          "of files up to 300 KB), JSON parts (put(Var)/json() in both directions and raw JSON text to request.json(); the top-level value is an "
+          "object or array, also empty, or a single value: false, true, 0, negative and large integers, fractions, 0.0, \"\", strings, null), reference-server parts, and 2..64 clients in flight at once (one lane = one thread, released "
           "together), and 8..32 clients fetching small static files at once whose extensions are a mix of the server's built-in mime table, .bin and "
           "extensions never served before in the process (several distinct new ones per round); every file response must carry the Content-Type "
           "the server's table gives (text/plain for extensions without an entry). Non-trivial: an exchange with a body in at least one direction, or a range, or >= 2 concurrent clients; distinct by "
